@@ -20,6 +20,7 @@ DRIVER = 'Driver/C04.lean'
 REQUIRED_THEOREMS = ['CfVerif.C04.' + t for t in (
     'gen_misc_routing', 'gen_channels', 'gen_misc_commands', 'gen_type_table', 'gen_set_value',
     'set_value_wire_int', 'refused_without_tx', 'out_of_range_raises', 'set_value_raise_unchanged',
+    'set_roundtrip', 'set_roundtrip_int', 'fanout_each_once', 'registrations_nodup',
     'one_outstanding_fifo', 'reply_attribution_partial', 'reply_attribution_counterexample',
     'reply_attribution_duplicates_counterexample')]
 TRUSTED = ['harness/corr/c04.py extractor + correspondence + spec twin']
